@@ -228,6 +228,28 @@ def _r1(ctx):
                     r1.bad(key, '%s builds %s in an arm for slots %s' % (what, cons, sorted(slots)), loc='%s:%d' % (fx.fns[fid]['file'], arm['line']))
                 else:
                     r1.ok(key)
+    # (a3) the default value of a subrange is its lower limit (IEC 61131-3: the initial value of a subrange is the first
+    # limit): the Subrange arm of the default table computes from `lower`, never from a default of the base type, which
+    # can lie outside the range
+    dv = [k for k in fx.fns if re.search(r'trust_runtime::value::defaults::default_value_for_type$', k)]
+    if not dv:
+        r1.bad('anchor-missing|default_value_for_type', 'default table not found')
+    else:
+        found = False
+        for m in fx.matches_in(dv[0]):
+            for arm in m['arms']:
+                if any('Type::Subrange' in p for p in arm['pats']):
+                    found = True
+                    r1.saw()
+                    rec_calls = [r for r in arm['refs'] if re.search(r'default_value_for_type(_id)?$', r)]
+                    clamps = [r for r in arm['refs'] if re.search(r'::(max|min|clamp)$', r)]
+                    if rec_calls or clamps:
+                        r1.bad('default|Subrange', 'the default of a subrange is derived from %s instead of being its lower limit: for a range that does not contain the base type\'s default (e.g. INT(-10..-5)) the variable starts outside its range' % (
+                            (rec_calls + clamps)[0].split('::')[-1]), loc='%s:%d' % (fx.fns[dv[0]]['file'], arm['line']))
+                    else:
+                        r1.ok('default|Subrange')
+        if not found:
+            r1.bad('default|Subrange', 'the default table has no Subrange arm (shape not recognised)', loc='%s:%d' % (fx.fns[dv[0]]['file'], fx.fns[dv[0]]['line']))
     # (b) TypeId-keyed tables: coerce_from_io and the helpers of coerce_value_to_type
     for fid in sorted(k for k in fx.fns if re.search(r'^trust_runtime::(io::coerce_from_io|harness::coerce::coerce_\w+)$', k)):
         fname = fid.split('::')[-1]
@@ -249,6 +271,23 @@ def _r1(ctx):
                 if fname == 'coerce_value_to_type':
                     continue       # dispatch only; its helper tables are checked below
                 r1.saw()
+                if not cons:
+                    # no constructor in the arm: the input value is passed through. Then the value patterns the arm accepts
+                    # decide the class that is stored: they must be exactly the class of the declared type, per type
+                    accepted = set()
+                    for im in inner:
+                        if arm['line'] <= im['line'] < hi:
+                            for ia in im['arms']:
+                                if any(r.endswith('RuntimeError::TypeMismatch') or r == 'core::result::Result::Err' for r in ia['refs']):
+                                    continue
+                                accepted |= set(re.findall(r'value::types::Value::(\w+)', ' '.join(ia['pats'])))
+                    if accepted:
+                        for t in tys:
+                            if {norm(c) for c in accepted} != {norm(t)}:
+                                r1.bad('%s|%s' % (fname, t), '%s passes a value of class %s through for declared type %s: the variable then holds a value of another type' % (fname, sorted(accepted), t), loc='%s:%d' % (fx.fns[fid]['file'], arm['line']))
+                            else:
+                                r1.ok('%s|%s' % (fname, t))
+                    continue
                 for t in tys:
                     if len(tys) > 1 and fname != 'coerce_from_io':
                         continue   # grouped fallthrough arm (`_ => LInt`) handled by the dispatcher's grouping
